@@ -196,7 +196,8 @@ E2E_QUICK = [inst("cal_head", GROUP=0, C04_EXT_DIRS=0), inst("cal_status", GROUP
              inst("user_neterr", GROUP=1, EXCH=1, **T), inst("pubfile_oom", GROUP=2, EXCH=2, **T)]
 # a successful exchange followed by all comparisons in one run: 2-4 min each (11.8M variables) - thorough tier only
 E2E_SLOW = [inst("user_l", GROUP=1, C04_EXT_DIRS=1, **T), inst("user_r", GROUP=1, C04_EXT_DIRS=0, AGGR_TIME=1000, ANCHOR_TIME=1001),
-            inst("pubfile_l", GROUP=2, C04_EXT_DIRS=1, AGGR_TIME=1000, ANCHOR_TIME=1000), inst("user_reqid", GROUP=1, EXCH=4, **T)]
+            inst("pubfile_l", GROUP=2, C04_EXT_DIRS=1, AGGR_TIME=1000, ANCHOR_TIME=1000)]
+# (a reply with another request id, EXCH=4, makes symex follow both outcomes of the id comparison: > 30 min; that case is h_ext's subject)
 H.append({
     "name": "h_e2e", "src": "h_e2e.c", "env": ENV + ["ext_seam"], "tus": ["verification_rule", "signature", "hashchain", "hash", "publicationsfile", "types", "tlv"],
     "extra_src": ["x_net_real.c"], "global_defines": ["SB_INALG={0,0,0}", "SB_SIBALG={{0,0,0},{0,0,0},{0,0,0}}"],
@@ -260,14 +261,22 @@ LEVEL_TEXT = ("Decomposition policy verdict = real rule tables over leaf rules. 
               "creation-time rules; publications-file lookups through the real publicationsfile.c; the four fetching rules through receiveCalendarHashChain with a transport "
               "seam (request start / end time, every step's status, extender status, request-id match, exactly the reply's chain buffered, no stale chain); the CAL-01..04 "
               "and PUB-01..03 comparisons on the buffered chain; certificate lookup by id, KEY-03 window (inclusive bounds) and KEY-02 (oracle asked once, over exactly the "
-              "serialized published-data bytes, with the record's certificate); the deprecated-algorithm and presence probes.")
+              "serialized published-data bytes, with the record's certificate); the deprecated-algorithm and presence probes. (3) h_e2e runs the real anchor sub-tables over the "
+              "real rules (fetch + all comparisons in one evaluation) on one signature shape per policy as a check of the glue between (1) and (2). (4) h_pkiraw: the wrapper "
+              "KSI_PKITruststore_verifyRawSignature itself (pkitruststore_openssl.c) is checked against the tri-state contract of EVP_VerifyFinal (1 match / 0 mismatch / -1 error) with "
+              "every OpenSSL call a nondeterministic external: KSI_OK only for exactly (data, signature, certificate key, digest of the OID) and answer 1; OpenSSL itself stays outside.")
 LEVEL_NOTE = ("bounded shapes (see outside_bounds) with symbolic values; cryptography, transports and HMAC are oracles / seams; the policy-level statement follows from (1) and (2) "
               "only through the stub-to-rule correspondence written down in hb_anchor.c; four rule-level peculiarities that do not affect the property are asserted in weakened form "
               "and described in FINDINGS.md (O1-O5); finding F1 (publications-file PUB-02 rule ignored the aggregation time) was reproduced, fixed in /repo (fdc15f8) and is now proved absent; "
               "CBMC C semantics; 37 seeded mutations of policy.c / verification_rule.c / publicationsfile.c are all caught (MUTATIONS.md)")
 
+# ---------------------------------------------------------------- the wrapper around OpenSSL's raw signature check (harness by the coordinator)
+H.append({"name": "h_pkiraw", "src": "h_pkiraw.c", "env": ["ctx", "fmt_stub", "list_wrap"], "tus": [], "unwind": 4, "timeout": 300, "object_bits": 12,
+          "functions": ["KSI_PKITruststore_verifyRawSignature", "KSI_MD2hashAlg"],
+          "bound": "all outcomes of the OpenSSL calls (modelled as nondeterministic externals), data <= 4 bytes, signature <= 6 bytes"})
+
 for h in H:
-    if h["name"] != "hb_anchor" and "--slice-formula" not in h.get("cbmc_flags", []):
+    if h["name"] not in ("hb_anchor", "h_pkiraw") and "--slice-formula" not in h.get("cbmc_flags", []):
         h["cbmc_flags"] = h.get("cbmc_flags", []) + ["--slice-formula"]      # measured: 3.4M -> 0.1M variables on the download instances
 
 PLAN = {
